@@ -40,6 +40,11 @@ class MaterializeReshapeShape(RewriteRuleClassBase):
         dims = list(output.shape)
         sym_count = sum(1 for d in dims if not isinstance(d, int))
 
+        if sym_count == 1 and any(isinstance(d, int) and d == 0 for d in dims):
+            # -1 cannot be inferred next to a zero-sized dimension (and Reshape rejects
+            # a shape holding both 0 and -1 when allowzero=1).
+            return check_result.fail("Output shape has a zero dim and a symbolic dim.")
+
         if sym_count <= 1:
             self._new_dims = [-1 if not isinstance(d, int) else int(d) for d in dims]
         else:
